@@ -237,7 +237,7 @@ crate::harnesses! {
 
     /// extended_to_float packs (mant, exp) into the IEEE bit layout, f32 and f64, all valid biased inputs.
     /// @prop C01 C05 C15
-    /// @feat default radix_format compact
+    /// @feat default radix_format
     /// @fn lexical-parse-float::float::extended_to_float
     fn extended_to_float_bits() {
         let mant: u64 = any();
